@@ -184,6 +184,7 @@ type c36Rule struct {
 	Gate  *vfcGate
 	Err   error
 	Do    func() // runs when the rule fires (e.g. flip the leader)
+	Cond  func() bool // when set, only operations for which it holds are counted / matched
 	hits  atomic.Int32
 	fired atomic.Int32
 }
@@ -257,6 +258,8 @@ type c36RT struct {
 	delaysHit atomic.Int64
 	opsBy     [8]atomic.Int64
 	existsOps atomic.Int64
+	membersBy [8]atomic.Int64 // Members reads per node during the round
+	heldLate  atomic.Int64    // callers held after a second "absent" name check
 }
 
 var c36CurRound atomic.Pointer[c36RT]
@@ -292,6 +295,9 @@ func (rt *c36RT) apply(node int, op string, after bool) error {
 	var out error
 	for _, r := range rules {
 		if r.After != after || r.Op != op || (r.Node >= 0 && r.Node != node) {
+			continue
+		}
+		if r.Cond != nil && !r.Cond() {
 			continue
 		}
 		n := int(r.hits.Add(1))
@@ -331,6 +337,9 @@ func c36Before(node int, op, key string) error {
 	}
 	if op == "ActorExists" {
 		rt.existsOps.Add(1)
+	}
+	if op == "Members" && node >= 0 && node < len(rt.membersBy) {
+		rt.membersBy[node].Add(1)
 	}
 	if rt.noisePM > 0 {
 		rt.nmu.Lock()
@@ -605,6 +614,48 @@ var c36Scenarios = []c36Scenario{
 		rt.st.mu.Unlock()
 		rt.achieved = stops >= 1 && starts >= 2
 	}},
+	{"held-after-absent-check", 3, func(rt *c36RT) {
+		// stable leader L. The first caller (on L) is held right after its registry name check
+		// answered "absent"; further callers arrive (on L and, through RemoteSpawn, from the other
+		// nodes); any caller whose own name check also answers "absent" is held there too. The
+		// first caller then runs to completion and returns; only then are the held ones released.
+		L := rt.A()
+		rt.setLeader(L)
+		rt.flips.Store(0)
+		absent := func() bool { return rt.cl.Store.Actor(rt.name) == nil }
+		r1, g1 := rt.gateRule(L, "ActorExists", true, 1)
+		r1.Cond = absent
+		r2, g2 := rt.gateRule(L, "ActorExists", true, 2)
+		r2.Cond = absent
+		r2.Do = func() { rt.heldLate.Add(1) }
+		a := rt.spawn(L, "")
+		if !rt.arrived(g1, a) {
+			rt.note("gate after the first absent name check on the leader not reached")
+			return
+		}
+		others := []*c36Call{rt.spawn(rt.B(), ""), rt.spawn(rt.C(), "")}
+		for i := 0; i < rt.rng.Intn(3); i++ {
+			others = append(others, rt.spawn(rt.perm[rt.rng.Intn(3)], ""))
+		}
+		// the forwarded calls have reached the leader once it has read its member list for them
+		// (1 read for the first caller + 1 per other caller)
+		want := int64(1 + len(others))
+		reached := rt.until(func() bool { return rt.membersBy[L].Load() >= want || g2.Arrived() })
+		// from there a caller is at most a few statements away from its name check / the single flight
+		grace := time.Now().Add(150 * time.Millisecond)
+		for !g2.Arrived() && time.Now().Before(grace) {
+			time.Sleep(200 * time.Microsecond)
+		}
+		g1.Release()
+		if !rt.wait(a) {
+			return
+		}
+		aOK := a.Err == nil
+		time.Sleep(time.Duration(rt.rng.Intn(3)) * time.Millisecond)
+		g2.Release()
+		rt.wait(others...)
+		rt.achieved = r1.Fired() && reached && aOK && rt.successes(others...) >= 1
+	}},
 	{"publish-fail", 2, func(rt *c36RT) {
 		// the leader's publication of the singleton record fails once (the spawn is rolled back);
 		// once the rolled-back instance is gone from the leader's tree, all nodes spawn again
@@ -774,6 +825,7 @@ type c36Outcome struct {
 	Notes     []string
 	Millis    int64
 	LeakedDup bool
+	HeldLate  int64
 }
 
 func c36Quiesce(cl *vfcCluster) bool {
@@ -826,6 +878,7 @@ func c36RunRound(cl *vfcCluster, mon *c36Mon, scen c36Scenario, seed int64) c36O
 	sameOnly := st.sameNode && !st.crossNode
 	st.mu.Unlock()
 	out.Flips, out.Injected, out.GatesHit, out.Delays = rt.flips.Load(), rt.injected.Load(), rt.gatesHit.Load(), rt.delaysHit.Load()
+	out.HeldLate = rt.heldLate.Load()
 	ops := cl.Store.OpStrings(name)
 	out.RegOps = len(ops)
 	for _, c := range calls {
